@@ -303,7 +303,7 @@ Section C05a.
         cbn [rec_add set_tbl ev emit log_req r_tr]. right. left. rewrite EI. reflexivity. }
       destruct (faulted sc (FDelete (c_id ce))); [apply RQ; apply mc_ab|].
       destruct (find_obj (objs (r_cl (maybe_cancel sc s (c_id ce)))) (c_id ce)) as [live|]; [|apply RQ; apply mc_ab].
-      destruct (N.eqb (c_uid live) u0); apply RQ; cbn [set_cl r_aband]; apply mc_ab.
+      destruct (N.eqb (c_uid live) u0); [destruct (u_fin (uinfo_of sc (c_id ce)))|]; apply RQ; cbn [set_cl r_aband]; apply mc_ab.
     - exfalso. apply prune_filters_keep in PF. congruence.
     - exfalso. apply NA. exact (prune_filters_alias sc pl locals _ _ _ PF).
     - split; [reflexivity|]. right. exists ASkipped, 0%N. split; [|right; reflexivity].
@@ -323,12 +323,13 @@ Section C05a.
     assert (HU : c_uid cj = u0 -> c_id cj = e) by (intros X; exact (H_uid_inj _ _ Hc0 X)).
     destruct I0 as [A1 A2 A3 A4].
     assert (CL : CI (r_cl s')).
-    { destruct ALT as [[_ [_ EC]]|[[_ [_ [EC _]]]|[[_ [_ DT]]|[[_ [_ [EC _]]]|[_ [_ DL]]]]]].
+    { destruct ALT as [[_ [_ EC]]|[[_ [_ [EC _]]]|[[_ [_ DT]]|[[_ [_ [EC _]]]|[[_ [_ DL]]|[_ [_ [EC _]]]]]]]].
       - rewrite EC. exact A1.
       - rewrite EC. exact A1.
       - exact (CI_detached _ _ _ _ A1 DT HU).
       - rewrite EC. exact A1.
-      - exact (CI_deleted _ _ _ A1 DL). }
+      - exact (CI_deleted _ _ _ A1 DL).
+      - rewrite EC. exact A1. }
     assert (TB : forall i u1, tv s' i = Some (SApply, ASucceeded, u1) -> u1 <> u0).
     { intros i u1 H. destruct (Nat.eq_dec i (c_id cj)) as [->|Hi].
       - assert (TVs : tv s' (c_id cj) = Some (SDelete, a, u)) by (apply (tv_set_self s s' _ ET)).
